@@ -20,7 +20,7 @@ RULE = ("(a) every command with <=K arguments over an alphabet of 58 argument le
 UNQ = ["a", "a1_", "-Dx=y", "a;b", "a\;b", "a\\ b", "\\#", "\\(", "\\\"", "\\\\", "\\t\\n\\r", "${v}", "${v}/x", "$ENV{H}",
        "@v@", "<t>", "$<g:e>", "a$b", "[x]", "x[1]", "]]", "[", "a=b", "ü",
        # characters that Python's str.splitlines()/isspace() treat as separators but CMake as ordinary text
-       "a\x0cb", "a\u2028b", "a\x85b", "a\x0bb", "a\xa0b"]
+       "a\x0cb", "a\u2028b", "a\x85b", "a\x0bb", "a\xa0b", "*values", "x**2", "out[", "a|b+c?", "^x$"]
 QUO = ['"x\x0cy\u2029z"', '""', '"a b"', '"a#b"', '"a;b"', '"(x)"', '"[[x]]"', '"\\"q\\""', '"\\(x\\)"', '"l1\nl2"', '"c\\\nd"', '"ü✓"']
 BRA = ["[=[\n]=]", "[[\n]]", "[[a]]", "[[a;b]]", "[[a(b]]", '[[ "x ]]', "[=[a]]b]=]", "[==[\nx\n]==]", "[[#c]]"]
 PAR = ["()", "(a)", "(a (b))", "((a) b)"]
@@ -388,7 +388,7 @@ def run(ctx):
     for (label, text), r in zip(cf, ctx.sweep(check_file, cf, space="comment shapes", selftest=10)):
         pass
     ctx.sweep(check_file, block_files(), space="block structures x command-name case", selftest=3)
-    ctx.sweep(check_file, documented_uses(LEX if not quick else [l for l in LEX if l in CORE or l in BRA or l in QUO]),
+    ctx.sweep(check_file, documented_uses(LEX if not quick else [l for l in LEX if l in CORE or l in BRA or l in QUO or l in ("[", "*values", "out[", "x**2")]),
               space="documented commands x lexemes", selftest=3)
     ctx.sweep(check_file, boundary_files(), space="multi-byte characters at buffer boundaries", selftest=2)
     # 3b. signature of documented generic commands (arguments without line breaks)
